@@ -7,11 +7,11 @@ CONSTANTS
   PlateSize = 2
   Scales = {1}
   MaxFactors = 2
-  Plus = "max"
+  Plus = "add"
   Times = "mul"
-  LeafKind = "nonneg"
-  Param = FALSE
-  Tag = "sp_maxmul"
+  LeafKind = "lin"
+  Param = TRUE
+  Tag = "sp_addmul_param"
 INVARIANT Inv_OracleInputs
 INVARIANT Emit
 CHECK_DEADLOCK FALSE
